@@ -137,7 +137,8 @@ class C11Index1D(Harness):
         else:
             r = E.attempt(lambda: h[self._index(E, p, x)])
         shares = (not isinstance(r, (Raised, tuple))) and any(rb is sb for rb in r._binnings for sb in h._binnings)
-        return {"res": _snap_any(E, r), "after": snap1d(E, h), "shares_binning": shares, "source_right_flag": bool(h.binning.includes_right_edge)}
+        mem = (not isinstance(r, (Raised, tuple))) and (bool(np.shares_memory(r.frequencies, h.frequencies)) or bool(np.shares_memory(r.errors2, h.errors2)))
+        return {"res": _snap_any(E, r), "after": snap1d(E, h), "shares_binning": shares, "shares_memory": mem, "source_right_flag": bool(h.binning.includes_right_edge)}
 
     def oracle(self, cx, p, x, obs):
         M = p["M"]
@@ -225,6 +226,7 @@ class C11Index1D(Harness):
             yield "edges_available", not isinstance(res["edges"], Raised)
         yield "right_edge_flag_kept", res["right_flags"] == [obs["source_right_flag"]]
         yield "binning_objects_not_shared", obs["shares_binning"] is False
+        yield "arrays_are_copies_not_views", obs["shares_memory"] is False
         yield "meta", res["name"] == "n" and res["axis_names"] == ["ax"] and res["cls"] == "Histogram1D"
         yield "dtype", res["dtype"] == "int64" == res["fdtype"] == res["edtype"]
         if contiguous and sel:
@@ -249,11 +251,14 @@ class C11IndexND(Harness):
             yield f"nd-S2x3-{sp.replace(',', '_').replace(':', 'c')}", dict(shape=[2, 3], spec=sp)
         for sp in specs3:
             yield f"nd-S2x2x2-{sp.replace(',', '_').replace(':', 'c')}", dict(shape=[2, 2, 2], spec=sp)
+        for sp in ("t,:", ":,t", "t,t"):
+            yield f"nd-S2x3-{sp.replace(',', '_').replace(':', 'c')}-step2", dict(shape=[2, 3], spec=sp)
         for sp in ("s,s", ":,s", "i,s"):
             yield f"nd-S2x3-{sp.replace(',', '_').replace(':', 'c')}-static-touched", dict(shape=[2, 3], spec=sp, static=True, touch=True)
         yield "nd-S2x3-s_s-touched", dict(shape=[2, 3], spec="s,s", touch=True)
-        for sp in ("s,s", "i,s", "s,i", "i"):
-            yield f"nd-S2x3-{sp.replace(',', '_')}-fixed", dict(shape=[2, 3], spec=sp, fixed=True)
+        for sp in ("s,s", "i,s", "s,i", "i", "t,:", ":,t"):
+            yield f"nd-S2x3-{sp.replace(',', '_').replace(':', 'c')}-fixed", dict(shape=[2, 3], spec=sp, fixed=True)
+        yield "nd-S2x3-c_t-numpy", dict(shape=[2, 3], spec=":,t", numpy=True)
         yield "nd-neg-step", dict(shape=[2, 3], spec="r")
 
     def declare(self, cx, p):
@@ -281,6 +286,9 @@ class C11IndexND(Harness):
         if p.get("fixed"):
             FWB = E.mod("physt.binnings").FixedWidthBinning
             mk = lambda e: FWB(bin_width=1.0, bin_count=len(e) - 1, bin_times_min=0)  # noqa: E731
+        if p.get("numpy"):
+            NB = E.mod("physt.binnings").NumpyBinning
+            mk = lambda e: NB(np.asarray(e))  # noqa: E731
         h = cls([mk(x["e"][k]) for k in range(D)], np.asarray(nested(x["f"], shape), dtype=int), errors2=np.asarray(nested(x["q"], shape), dtype=int), axis_names=names, name="n")
         if p.get("touch"):
             _touch(h)
@@ -292,12 +300,15 @@ class C11IndexND(Harness):
                 key.append(slice(v[0], v[1]))
             elif c == "r":
                 key.append(slice(None, None, -1))
+            elif c == "t":
+                key.append(slice(None, None, 2))
             else:
                 key.append(slice(None))
         idx = tuple(key) if len(key) > 1 else key[0]
         r = E.attempt(lambda: h[idx])
         shares = (not isinstance(r, (Raised, tuple))) and any(rb is sb for rb in r._binnings for sb in h._binnings)
-        return {"res": _snap_any(E, r), "after": snapnd(E, h), "distinct": r is not h, "shares_binning": shares, "source_right_flags": [bool(b.includes_right_edge) for b in h._binnings]}
+        mem = (not isinstance(r, (Raised, tuple))) and (bool(np.shares_memory(r.frequencies, h.frequencies)) or bool(np.shares_memory(r.errors2, h.errors2)))
+        return {"res": _snap_any(E, r), "after": snapnd(E, h), "distinct": r is not h, "shares_binning": shares, "shares_memory": mem, "source_right_flags": [bool(b.includes_right_edge) for b in h._binnings]}
 
     def oracle(self, cx, p, x, obs):
         shape = p["shape"]
@@ -336,6 +347,8 @@ class C11IndexND(Harness):
             elif c == "s":
                 a, b = cx.concrete_int(x["ix"][k][0]), cx.concrete_int(x["ix"][k][1])
                 sel.append(pos[slice(a, b)])
+            elif c == "t":
+                sel.append(pos[::2])
             else:
                 sel.append(pos)
         if bad:
@@ -355,6 +368,7 @@ class C11IndexND(Harness):
         yield "ndim", res["ndim"] == len(kept)
         yield "right_edge_flags_kept", res["right_flags"] == [obs["source_right_flags"][k] for k in kept]
         yield "binning_objects_not_shared", obs["shares_binning"] is False
+        yield "arrays_are_copies_not_views", obs["shares_memory"] is False
         yield "axis_names", res["axis_names"] == [names[k] for k in kept]
         yield "class", res["cls"] == {1: "Histogram1D", 2: "Histogram2D"}.get(len(kept), "HistogramND")
         got_shape = [len(res["bins"])] if len(kept) == 1 else [len(b) for b in res["bins"]]
@@ -365,7 +379,7 @@ class C11IndexND(Harness):
         re_ = [res["edges"]] if len(kept) == 1 else res["edges"]
         for t in range(len(kept)):
             yield from geom_consistent(cx, rb[t], re_[t], f"edges_match_bins[{t}]")
-            if kshape[t]:
+            if kshape[t] and (codes[kept[t]] if kept[t] < len(codes) else ":") != "t":
                 yield f"edges_available[{t}]", not isinstance(re_[t], Raised)
         for t, k in enumerate(kept):
             for s_, j in enumerate(sel[k]):
